@@ -693,7 +693,7 @@ func (st *state) loader(fn, fetch, clear *core.Fn) {
 	core.Inspect(loop.Body, func(n ast.Node) bool {
 		switch s := n.(type) {
 		case *ast.BranchStmt:
-			if s.Tok == token.BREAK || s.Tok == token.GOTO {
+			if s.Tok == token.GOTO || s.Tok == token.BREAK && tt.BreaksLoop(loop.Body, s) {
 				early = c.Src(s)
 			}
 		case *ast.ReturnStmt:
@@ -877,6 +877,9 @@ func (st *state) loader(fn, fetch, clear *core.Fn) {
 				case r == "<":
 					refused++
 					okAbsent := x.Establishes(b, si, notAbsent)
+					if !okAbsent { // tested on an earlier branch
+						okAbsent, _ = x.OnlyVia(cfgq.Point{}, b.Nodes[len(b.Nodes)-1], notAbsent)
+					}
 					c.Check("R3.gate", "LoadCheckpoint/version-gate", f.Expr.Pos(), okAbsent, "the refusal must not apply when no checkpoint was found (recorded version -1): otherwise a target without any checkpoint makes the start fail instead of reporting offset -1")
 				case accepts == nil && (r == "<=" || r == ">=" || r == ">" || r == "="):
 					c.Failf("R3.gate", "LoadCheckpoint/version-gate", f.Expr.Pos(), "a checkpoint with version %s FeatureCompatibleVersion is refused: the version this build writes itself (CurrentVersion=%d, FeatureCompatibleVersion=%d) cannot be resumed", r, st.cur, st.fc)
